@@ -476,7 +476,8 @@ func req_ReadMessage(v *Protocol) bool { return spec_wfReader(v) }
 
 //@ invariant (*Protocol).ReadMessage 0
 func inv_ReadMessage(v *Protocol, m *Message, err error) bool {
-	return spec_wfReader(v) && err == nil && (m == nil || len(m.Payload) == int(m.payloadLength))
+	return spec_wfReader(v) && err == nil && (m == nil || len(m.Payload) == int(m.payloadLength)) &&
+		(ghost_old_ioerr() != nil || ghost_ioerr() == nil) // no transport failure so far in this call
 }
 
 // a message is only ever returned complete (never truncated), and with a nil error
